@@ -249,7 +249,7 @@ func countRaces(dir string) (lib int, heads []string, harnessOnly int) {
 					fr = append(fr, strings.TrimPrefix(mm, "github.com/pion/turn/v5"))
 				}
 			}
-			if len(fr) == 0 {
+			if len(fr) == 0 || harnessOwnsBothAccesses(blk) {
 				harnessOnly++
 
 				continue
@@ -265,6 +265,37 @@ func countRaces(dir string) (lib int, heads []string, harnessOnly int) {
 	sort.Strings(heads)
 
 	return lib, heads, harnessOnly
+}
+
+// harnessOwnsBothAccesses: in both access stacks of a race report the innermost frame that is
+// either harness or pion/turn code (runtime and standard library frames skipped) is harness
+// code: the racing variable is the harness' own, whoever called into it.
+func harnessOwnsBothAccesses(blk string) bool {
+	accesses, harness := 0, 0
+	lines := strings.Split(blk, "\n")
+	for i := 0; i < len(lines); i++ {
+		l := strings.TrimSpace(lines[i])
+		if !(strings.HasPrefix(l, "Read at") || strings.HasPrefix(l, "Write at") || strings.HasPrefix(l, "Previous read at") || strings.HasPrefix(l, "Previous write at") ||
+			strings.HasPrefix(l, "Atomic read at") || strings.HasPrefix(l, "Atomic write at") || strings.HasPrefix(l, "Previous atomic")) {
+			continue
+		}
+		accesses++
+		for j := i + 1; j < len(lines) && strings.TrimSpace(lines[j]) != ""; j++ {
+			if strings.HasPrefix(lines[j], "      ") {
+				continue // file:line
+			}
+			if strings.Contains(lines[j], "verifharness") {
+				harness++
+
+				break
+			}
+			if pionFrame.MatchString(lines[j]) {
+				break
+			}
+		}
+	}
+
+	return accesses >= 2 && harness == accesses
 }
 
 func loadFindings() []finding {
